@@ -1,4 +1,84 @@
-(* C20 placeholder, replaced below *)
-From RV Require Import Model.Mapping.
-Theorem C20_placeholder : True. Proof. exact I. Qed.
-Eval cbv in "ASSUMPTIONS-OF C20_placeholder"%string. Print Assumptions C20_placeholder.
+(* C20  Configuration entry points agree and stay self-consistent.  Statements only; proofs in
+   Proofs/ConfigFacts.v about Model/Config.v.  The regex engine is an oracle (compiles, matches).
+   Equality of the directory fields across entry points "after normalisation" depends on the
+   path algebra and is established by the correspondence run (the model's path functions are
+   compared with std::path on every run), not by a theorem. *)
+From RV Require Import Model.Config Proofs.ConfigFacts.
+
+Section C20.
+Variable compiles : string -> bool.
+Variable matches : string -> string -> bool.
+
+(** After any sequence of configuration calls, successful or failed, the pattern list the
+    instance reports is the one it applies ... *)
+Theorem C20_reported_is_applied_after_any_history :
+  forall ops c, consistent c ->
+    consistent (fold_left (fun c o => fst (cfg_step compiles c o)) ops c).
+Proof. exact (history_consistent compiles). Qed.
+
+(** ... so what it does with a missing class is what the reported settings say. *)
+Theorem C20_behaviour_is_what_is_reported :
+  forall c cls, consistent c ->
+    is_class_ignored matches c cls = cf_ignore c && existsb (fun p => matches p cls) (cf_reported c).
+Proof. exact (behaviour_is_reported matches). Qed.
+
+(** Every constructor result starts consistent. *)
+Theorem C20_constructor_consistent :
+  forall i n cl g c, config_new i n cl g = Ok c -> consistent c.
+Proof. exact config_new_consistent. Qed.
+
+(** A failed call leaves the instance exactly as it was. *)
+Theorem C20_failed_call_changes_nothing :
+  forall c o, snd (cfg_step compiles c o) = false -> fst (cfg_step compiles c o) = c.
+Proof. exact (failed_call_changes_nothing compiles). Qed.
+
+(** Patterns that do not compile are rejected. *)
+Theorem C20_bad_pattern_rejected :
+  forall c ps, forallb compiles ps = false -> set_regexp compiles c ps = Err (EConfig "pattern does not compile").
+Proof. exact (bad_pattern_rejected compiles). Qed.
+
+(** Unknown options are ignored. *)
+Theorem C20_unknown_option_ignored :
+  forall c p k v, known_key k = false -> set_option c p k v = Ok c.
+Proof. exact unknown_option_ignored. Qed.
+
+(** Flags and lists of the wrong type are rejected. *)
+Theorem C20_wrong_type_rejected :
+  forall c p,
+  (forall v, (forall b, v <> YBool b) -> exists e, set_option c p "ignore_class_notfound" v = Err e) /\
+  (forall v, (forall b, v <> YBool b) -> exists e, set_option c p "compose_node_name" v = Err e) /\
+  (forall v, (forall l, v <> YSeq l) -> exists e, set_option c p "ignore_class_notfound_regexp" v = Err e) /\
+  (forall l, all_strings l = None -> exists e, set_option c p "ignore_class_notfound_regexp" (YSeq l) = Err e) /\
+  (forall v, (forall l, v <> YSeq l) -> exists e, set_option c p "reclass_rs_compat_flags" v = Err e) /\
+  (forall l, all_strings l = None -> exists e, set_option c p "reclass_rs_compat_flags" (YSeq l) = Err e).
+Proof. exact wrong_type_rejected. Qed.
+
+(** The same options as a config file and as a dict: both accept or both reject, and all flags,
+    pattern lists and compatibility flags agree. *)
+Theorem C20_file_and_dict_agree :
+  forall inv file es c0, config_new (Some inv) None None None = Ok c0 ->
+    match load_from_file compiles c0 file es, from_dict compiles inv es with
+    | Ok a, Ok b => same_settings a b
+    | Err _, Err _ => True
+    | _, _ => False
+    end.
+Proof. exact (file_and_dict_agree compiles). Qed.
+
+End C20.
+
+Eval cbv in "ASSUMPTIONS-OF C20_reported_is_applied_after_any_history"%string. Print Assumptions C20_reported_is_applied_after_any_history.
+Eval cbv in "ASSUMPTIONS-OF C20_behaviour_is_what_is_reported"%string. Print Assumptions C20_behaviour_is_what_is_reported.
+Eval cbv in "ASSUMPTIONS-OF C20_constructor_consistent"%string. Print Assumptions C20_constructor_consistent.
+Eval cbv in "ASSUMPTIONS-OF C20_failed_call_changes_nothing"%string. Print Assumptions C20_failed_call_changes_nothing.
+Eval cbv in "ASSUMPTIONS-OF C20_bad_pattern_rejected"%string. Print Assumptions C20_bad_pattern_rejected.
+Eval cbv in "ASSUMPTIONS-OF C20_unknown_option_ignored"%string. Print Assumptions C20_unknown_option_ignored.
+Eval cbv in "ASSUMPTIONS-OF C20_wrong_type_rejected"%string. Print Assumptions C20_wrong_type_rejected.
+Eval cbv in "ASSUMPTIONS-OF C20_file_and_dict_agree"%string. Print Assumptions C20_file_and_dict_agree.
+
+(** Non-vacuity: a history with a failing setter call keeps reported = applied. *)
+Example C20_nonvacuous :
+  let compiles := fun p => negb (String.eqb p "(") in
+  exists c0, config_new (Some "inv") None None (Some true) = Ok c0 /\
+    let c := fold_left (fun c o => fst (cfg_step compiles c o)) [OSetRegexp ["^a"]; OSetRegexp ["("]; OSetIgnore true] c0 in
+    cf_reported c = ["^a"] /\ cf_compiled c = ["^a"].
+Proof. eexists. split; [reflexivity|]. split; reflexivity. Qed.
